@@ -8,8 +8,9 @@ Model: `S3V/Model/SigV4.lean` (literal mirror of `sig_v4/*`, `http/ordered_*`, `
 specification: `S3V/Spec/SigV4.lean` (from the AWS documents). `sha256hex` and `hmac` are arbitrary functions in
 every statement. Quantifiers: all requests (any byte strings, any number of headers / parameters), no size bound.
 State of the code: with the repairs b7c08fd (canonical headers collapse space runs and join repeated lines), 4011296
-(algorithm token and scope date checked), 10af2bf (a listed header must be in the request) and d453cd3 (`x-amz-date` and
-`x-amz-content-sha256` are parsed with their edge SP / HTAB removed: `trimOws`). The theorems marked
+(algorithm token and scope date checked), 10af2bf (a listed header must be in the request), d453cd3 (`x-amz-date` and
+`x-amz-content-sha256` are parsed with their edge SP / HTAB removed: `trimOws`) and a3c9b6f (the payload line of a GET /
+HEAD request follows `x-amz-content-sha256` and the body like that of any other method). The theorems marked
 `_partial` exclude, by the explicit decidable predicates `wf` / `wfHeaderAuth`, what still deviates or lies outside the
 specification's domain: duplicate query names whose values do not ascend (OPEN class `sigv4-dup-query-unsorted`, kept
 for compatibility with a deployed SDK), and `SignedHeaders` lists that repeat a name or list `authorization` (the
@@ -74,6 +75,37 @@ theorem C05_verdict_iff_partial (sha256hex : Bytes → Bytes) (hmac : Bytes → 
         a.signature = SigV4Spec.signature sha256hex hmac secret d.fmtIso8601 ⟨a.credential.date, region, service⟩
           ((c.req raw a.signedHeaders payload).toSpec sha256hex) :=
   header_verdict_iff_spec sha256hex hmac look c raw ak region service hraw hwf
+
+/-- (repair a3c9b6f, former class `sigv4-get-head-body`) the payload line `v4_check_header_auth` signs is the one the
+    request declares, WHATEVER THE METHOD: if the unique `x-amz-content-sha256` value, edge blanks removed, is
+    `UNSIGNED-PAYLOAD`, `STREAMING-AWS4-HMAC-SHA256-PAYLOAD` or the digest of the body (`SpecPayloadLine`, the three
+    admissible shapes of the AWS documents), then whenever the payload dispatch of the code succeeds the line it puts
+    into the canonical request is that value. For every context (no hypothesis on method, body or headers), arbitrary
+    hash with `hempty`: the constant `EMPTY_STRING_SHA256_HASH` is the digest of the empty string. Before the repair this
+    was false for GET / HEAD requests carrying a body (the empty-string digest was signed). -/
+theorem C05_payload_line_declared (sha256hex : Bytes → Bytes) (hempty : sha256hex [] = emptySha256) (c : Ctx)
+    (sha : Option ContentSha) (payload : Payload) (hsha : extractContentSha c.hs = .ok sha)
+    (hpl : headerPayload c sha = .ok payload) (pl : Bytes) (hspec : SpecPayloadLine sha256hex c pl) :
+    payloadLine sha256hex payload = pl :=
+  payloadLine_declared sha256hex hempty c sha payload hsha hpl pl hspec
+
+/-- `C05_verdict_iff_partial` with the payload line of the SPECIFICATION instead of the one the code chose: on contexts
+    satisfying `wfHeaderAuth` (the only excluded region is still the open class `sigv4-dup-query-unsorted` and
+    `SignedHeaders` lists outside the documents' domain — no condition on the method or on the body), for a request whose
+    `x-amz-content-sha256` is admissible (`SpecPayloadLine`), the request is accepted as (access key, region, service) iff
+    the checks pass and the presented signature is `Spec.signature` of the request whose payload line is the DECLARED one.
+    A correctly signed GET / HEAD request with a body — signed digest, UNSIGNED-PAYLOAD or streaming — is therefore
+    accepted like a PUT, and its body is covered by the signature like that of a PUT. -/
+theorem C05_verdict_iff_declared_partial (sha256hex : Bytes → Bytes) (hmac : Bytes → Bytes → Bytes)
+    (look : Bytes → Option Bytes) (c : Ctx) (raw : List (Bytes × Bytes)) (ak region service : Bytes)
+    (hraw : orderedHeaders raw = some c.hs) (hwf : wfHeaderAuth c = true) (hempty : sha256hex [] = emptySha256)
+    (pl : Bytes) (hspec : SpecPayloadLine sha256hex c pl) :
+    v4CheckHeaderAuth sha256hex hmac (some look) c = .accept ak region service ↔
+      ∃ a secret d payload, HeaderChecks look c a secret d payload ∧
+        a.credential.accessKey = ak ∧ a.credential.region = region ∧ a.credential.service = service ∧
+        a.signature = SigV4Spec.signature sha256hex hmac secret d.fmtIso8601 ⟨a.credential.date, region, service⟩
+          (c.specRequest raw a.signedHeaders pl) :=
+  header_verdict_iff_spec_declared sha256hex hmac look c raw ak region service hraw hwf hempty pl hspec
 
 /-- the canonical request determines the signed view — method, path, the canonical parameter list, each signed
     header's canonical value, the payload line — by unique line splitting; side conditions: no component contains a
@@ -190,6 +222,27 @@ def exampleCtx : Ctx :=
     body := [], bodyOnce := true, contentLength := none, decodedContentLength := none }
 
 example : orderedHeaders exampleCtx.hs = some exampleCtx.hs ∧ wfHeaderAuth exampleCtx = true := by decide
+
+/-- non-vacuity of `C05_payload_line_declared` / `C05_verdict_iff_declared_partial` in the repaired region: a GET request
+    that carries a body and declares its digest (a stand-in hash that maps the empty string to the constant and
+    everything else to 64 `a`s) meets every hypothesis, and the code's dispatch hands the BODY to the canonical request -/
+def exampleSha : Bytes → Bytes := fun m => if m = [] then emptySha256 else List.replicate 64 97
+
+def exampleGetBodyCtx : Ctx :=
+  { exampleCtx with
+    hs := [(b!"authorization", b!"AWS4-HMAC-SHA256 Credential=AK/20130524/us-east-1/s3/aws4_request, SignedHeaders=host;x-amz-content-sha256;x-amz-date, Signature=00"),
+           (b!"x-amz-content-sha256", b!" aaaaaaaaaaaaaaaaaaaaaaaaaaaaaaaaaaaaaaaaaaaaaaaaaaaaaaaaaaaaaaaa"),
+           (b!"x-amz-date", b!"20130524T000000Z")],
+    body := b!"hello" }
+
+example : exampleSha [] = emptySha256 ∧ exampleGetBodyCtx.method = b!"GET" ∧ exampleGetBodyCtx.body ≠ [] ∧
+    orderedHeaders exampleGetBodyCtx.hs = some exampleGetBodyCtx.hs ∧ wfHeaderAuth exampleGetBodyCtx = true ∧
+    SpecPayloadLine exampleSha exampleGetBodyCtx (List.replicate 64 97) ∧
+    extractContentSha exampleGetBodyCtx.hs = .ok (some (.singleChunk (List.replicate 64 97))) ∧
+    headerPayload exampleGetBodyCtx (some (.singleChunk (List.replicate 64 97))) = .ok (.singleChunk b!"hello") :=
+  ⟨by decide, by decide, by decide, by decide, by decide,
+   ⟨b!" aaaaaaaaaaaaaaaaaaaaaaaaaaaaaaaaaaaaaaaaaaaaaaaaaaaaaaaaaaaaaaaa", by decide, by decide, Or.inr (Or.inr (by decide))⟩,
+   by rfl, by rfl⟩
 
 /-- the rewrite of `C05_amz_header_edge_blanks_invariant` on that context: the blanks are really there, on the two lines -/
 example : (exampleCtx.padded (padAmz [9] [32, 32])).hs =
